@@ -112,7 +112,7 @@ install(globals(), 'C12', view, oracle,
         extra_corpus=_extra(),
         required=['emit_times_strict', 'row_is_flagged_state', 'one_row_per_batch', 'initial_prefix', 'at_most_one_row_per_pass', 'row_contents',
                   'every_row_is_the_state_at_its_time', 'branch_emit_acts_on_whole_branch',
-                  'store_schema_branch_emit'])
+                  'store_schema_branch_emit', 'branch_flag_then_specific'])
 
 
 # emission through units and custom serializers
